@@ -15,6 +15,8 @@ CONSTANTS
   AllowCrash = TRUE
   FixJournalNoPS = TRUE
   FixModeOnOpen = TRUE
+  AllowHoles = FALSE
+  FixHoles = TRUE
   AllowFreeReuse = FALSE
   AllowFromWal = FALSE
   FixModeSwitch = TRUE
